@@ -57,6 +57,7 @@ var _ = shared.NewCounter
 //@   callassert [succ-ProcessPass] ProcessPass: state == PASS
 //@   callassert [succ-ProcessError] ProcessError: state == ERROR
 //@   callassert [succ-restart] restart: state == RESTART
+//@   callassert [hit-keeps-the-object-unless-vcl-set-a-ttl C06] Update: i.ctx.ObjectTTL.Value > 0
 //@   mustcall [edge-ProcessDeliver] ProcessDeliver when err == nil && i.ctx != nil && !i.ctx.IsPurgeRequest && ($state == DELIVER)
 //@   mustcall [edge-ProcessPass] ProcessPass when err == nil && i.ctx != nil && !i.ctx.IsPurgeRequest && ($state == PASS)
 //@   mustcall [edge-ProcessError] ProcessError when err == nil && i.ctx != nil && !i.ctx.IsPurgeRequest && ($state == ERROR)
@@ -132,6 +133,7 @@ var _ = shared.NewCounter
 //@   decreases measure(i)
 //@   rank 3
 //@   ensures [no-log C06] i.g_logRuns == old(i.g_logRuns)
+//@   callassert [hash-reseeded-on-every-entry C06] ProcessSubroutine: i.ctx.RequestHash != nil && fresh(i.ctx.RequestHash)
 
 //@ func (*Interpreter).restart [C06 C08]
 //@   requires okI(i)
@@ -206,3 +208,10 @@ var _ = shared.NewCounter
 //@   decreases limitations.MaxIncludeDepth - i.includeDepth
 //@   ensures [depth-restored C08] i.includeDepth == old(i.includeDepth)
 //@   loop 1 invariant i.includeDepth == old(i.includeDepth) && i.ctx != nil
+
+// ---- C07: which case of a switch runs -----------------------------------------------------------------------
+// The default case is evaluated only after the scan over the other cases has run to its end (a match or
+// an error returns from inside the scan; nothing else may leave it early).
+//@ func (*Interpreter).ProcessSwitchStatement [C07]
+//@   requires i != nil && stmt != nil
+//@   callassert [default-only-after-every-other-case C07] ProcessCaseStatement: arg2 == stmt.Default ==> rangeindex >= rangelen
